@@ -8,6 +8,8 @@ Record case := mk_case {
   c_rows : list (Z * valuation);     (* per row: id and the truth value SQLite gives every atom *)
   o_where : string;                  (* the WHERE text gorm built, arguments inlined ("" = none) *)
   o_find : list Z; o_count : Z; o_update : list Z; o_delete : list Z;
+  o_same : list (list Z);            (* Pluck, Scan, Rows, FindInBatches, Updates(map), UpdateColumn *)
+  o_one : list (list Z);             (* First, Last, Take: the id returned, [] = record not found *)
   o_errs : Z
 }.
 
@@ -58,6 +60,17 @@ Definition spec_holds (c : case) : bool :=
     && (o_count c =? Z.of_nat (List.length ids))%Z
     && zlist_eqb (o_update c) ids
     && zlist_eqb (o_delete c) ids
+    && forallb (fun l => zlist_eqb l ids) (o_same c)
+    && match o_one c with
+       | [f; l; t] =>
+         zlist_eqb f (firstn 1 ids) && zlist_eqb l (firstn 1 (rev ids))
+         && match t with
+            | [] => match ids with [] => true | _ => false end
+            | [x] => existsb (Z.eqb x) ids
+            | _ => false
+            end
+       | _ => false
+       end
   | None => false
   end.
 
